@@ -121,6 +121,21 @@ def check_value(acc, spec, how=None):
             why = match(gc, exp)
             if why:
                 acc.failure("C10:slice_content:" + why, case, "got %r expected %r" % (gc, exp))
+    # widths must not depend on history: measure, concatenate, measure again (the operand and both results)
+    try:
+        for extra, ew in (("q", 1), ("Ｅ", 2), ("̀", 0)):
+            g = f + extra
+            h = extra + f
+            if g.width != total + ew or h.width != total + ew or f.width != total:
+                acc.failure("C10:width_after_concatenation", {"f": shown, "op": "f + %r / %r + f" % (extra, extra)}, "f.width=%r (f+x).width=%r (x+f).width=%r, expected %r / %r" % (f.width, g.width, h.width, total, total + ew))
+                break
+            for k in (0, n // 2, n, n + 1):
+                if f.width_at_offset(k) != sum(widths[:k]) or g.width_at_offset(k) != sum((widths + [ew])[:k]) or h.width_at_offset(k) != sum(([ew] + widths)[:k]):
+                    acc.failure("C10:width_at_offset_after_concatenation", {"f": shown, "op": "f + %r" % extra, "n": k}, "f:%r g:%r h:%r" % (f.width_at_offset(k), g.width_at_offset(k), h.width_at_offset(k)))
+                    break
+        acc.transitions += 3
+    except Exception as ex:  # noqa
+        acc.failure("C10:width_after_concatenation_raises:" + type(ex).__name__, {"f": shown}, repr(ex))
     if C.snapshot(f) != snap:
         acc.failure("C10:operand_changed", {"f": shown}, "")
 
